@@ -2,6 +2,7 @@ import LeanHelix.Driver.Quorum
 import LeanHelix.Driver.Kernels
 import LeanHelix.Driver.Filter
 import LeanHelix.Driver.Node
+import LeanHelix.Driver.BlockProof
 /-!
 `lhdriver <suite>`: reads one operation per line on stdin, runs the *model*, prints one output
 line per operation.  `bin/check` diffs this stream against what the Go harness observed on the
@@ -39,6 +40,7 @@ def main (args : List String) : IO UInt32 := do
   | ["state"] => loopStateful stdin stdout State.init stateStep; return 0
   | ["contexts"] => loopStateful stdin stdout ({} : Contexts.Reg) contextsStep; return 0
   | ["filter"] => loopStateful stdin stdout ({ me := 0, inst := 0 } : Filter.Filt) filterStep; return 0
+  | ["blockproof"] => loopStateless stdin stdout blockProofStep; return 0
   | ["trigger"] => loopStateful stdin stdout ({} : Trigger.Trig) triggerStep; return 0
   | ["node"] => loopStateful stdin stdout ([] : Nodes) nodeStep; return 0
   | _ => IO.eprintln "usage: lhdriver <suite>"; return 2
